@@ -847,6 +847,7 @@ Proof.
   - apply Hopt. intros t. apply m_from_dict_aligned.
   - destruct (s_index _ i); exact I.
   - exact I.
+  - apply Hopt. intros t. unfold m_add. apply m_add_gen_aligned.
 Qed.
 
 Theorem m_run_aligned p : forall sch cur t1,
